@@ -315,3 +315,76 @@ func runC16_7(c *core.Ctx) {
 		c.Undecided(f.Name, "unix endpoint", unixClause.Pos(), "the unix case has no successful return")
 	}
 }
+
+func init() {
+	register(&core.Rule{ID: "C16.8", Prop: "C16", MinSites: 15,
+		Desc: "an option sets the field it is named after: every WithX(v) constructor of package gnet returns a literal whose only store is opts.X = v (LB for WithLoadBalancing) – a requested read capacity does not land in the write capacity, a loop count not in the chunk size",
+		Run:  runC16_8})
+}
+
+func runC16_8(c *core.Ctx) {
+	optsT, _ := c.P.Object("", "Options").(*types.TypeName)
+	if !c.Need("Options", optsT) {
+		return
+	}
+	st, _ := optsT.Type().Underlying().(*types.Struct)
+	if st == nil {
+		return
+	}
+	hasField := func(n string) bool {
+		for i := 0; i < st.NumFields(); i++ {
+			if nameOf(st.Field(i)) == n {
+				return true
+			}
+		}
+		return false
+	}
+	special := map[string]string{"LoadBalancing": "LB"}
+	allFuncs(c, func(f *fn) {
+		name := nameOf(f.Obj)
+		sig, _ := f.Obj.Type().(*types.Signature)
+		if f.Pkg != c.P.Pkg("") || !strings.HasPrefix(name, "With") || name == "WithOptions" || sig == nil || sig.Recv() != nil || sig.Params().Len() != 1 || sig.Results().Len() != 1 || f.Decl.Body == nil {
+			return
+		}
+		if n, ok := sig.Results().At(0).Type().(*types.Named); !ok || n.Obj().Name() != "Option" {
+			return
+		}
+		want := name[4:]
+		if s, ok := special[want]; ok {
+			want = s
+		}
+		if !hasField(want) {
+			c.Undecided(f.Name, "field named by the option", f.Decl.Pos(), "Options has no field "+want+" for "+name+"; naming exception not in the rule's table")
+			return
+		}
+		stores, good := 0, true
+		ast.Inspect(f.Decl.Body, func(n ast.Node) bool {
+			as, ok := n.(*ast.AssignStmt)
+			if !ok {
+				return true
+			}
+			for k, l := range as.Lhs {
+				fv := flow.FieldOf(f.Info, l)
+				if fv == nil {
+					continue
+				}
+				owner := false
+				for i := 0; i < st.NumFields(); i++ {
+					if st.Field(i) == fv {
+						owner = true
+					}
+				}
+				if !owner {
+					continue
+				}
+				stores++
+				if nameOf(fv) != want || len(as.Rhs) != len(as.Lhs) || flow.ObjOf(f.Info, seeThrough(f, as.Rhs[k])) != types.Object(f.param(0)) {
+					good = false
+				}
+			}
+			return true
+		})
+		c.Check(good && stores == 1, f.Name, "stores its parameter in Options."+want, f.Decl.Pos(), "one store, the named field, the parameter",
+			name+" does not store exactly its parameter into Options."+want+": the value the user asked for lands in another option (or nowhere), so the normalised capacity/loop count is computed from the wrong request")
+	})
+}
